@@ -97,7 +97,9 @@ def evaluate(ident, tier='quick'):
     res = {'tier': tier, 'exit': r.returncode, 'wall_s': round(wall, 1),
            'detected': r.returncode == 1, 'first_violation': line[0].strip()[:400] if line else None,
            'summary_line': r.stdout.strip().splitlines()[-1][:200] if r.stdout.strip() else ''}
-    meta.setdefault('evaluation', {})[tier] = res
+    seed = os.environ.get('VERIF_SEED', '1') or '1'
+    key = tier if seed == '1' else '%s@seed%s' % (tier, seed)
+    meta.setdefault('evaluation', {})[key] = res
     # a change written against one property may be caught by the check of a related property
     for other in meta.get('related', []):
         base2 = scratch()
